@@ -241,6 +241,10 @@ func (wr *Writer) tightStruct(rv reflect.Value, si *sinfo) {
 }
 
 func (wr *Writer) tightSlice(rv reflect.Value, si *sinfo) {
+	if b, ok := rv.Interface().([]byte); ok { // follow the BytesAs option
+		wr.appendSEN(b, 0)
+		return
+	}
 	end := rv.Len()
 	comma := false
 	wr.buf = append(wr.buf, '[')
